@@ -218,11 +218,11 @@ def main(tier, seed):
     batches = []
     for i in range(0, len(u32), 4):
         batches.append({"kind": "bits", "classes": u32[i:i + 4], "seed": seed * 100 + i,
-                        "nwords": 90 if q else 400, "nrandom": 500 if q else 20000})
+                        "nwords": 90 if q else 1500, "nrandom": 500 if q else 100000})
     for i, c in enumerate(addr):
-        batches.append({"kind": "addr", "classes": [c], "seed": seed * 100 + i, "n": 3000 if q else 60000})
+        batches.append({"kind": "addr", "classes": [c], "seed": seed * 100 + i, "n": 3000 if q else 400000})
     for i, c in enumerate(tm):
-        batches.append({"kind": "time", "classes": [c], "seed": seed * 100 + i, "n": 20000 if q else 300000})
+        batches.append({"kind": "time", "classes": [c], "seed": seed * 100 + i, "n": 20000 if q else 2000000})
     acc = harness.run_workers("checks.c20_typed_accessors", "run_batch", batches, 900)
     classes_seen = len(acc.sigs)
     distinct = acc.extra.pop("distinct_judged", 0)
